@@ -210,6 +210,8 @@ pub fn pipe(buf: usize, client: &(Vec<usize>, usize), server: &(Vec<usize>, usiz
 pub enum ConnectMode {
     Fail,
     Succeed,
+    /// the attempt never answers (only a connect timeout can end it)
+    Hang,
 }
 
 /// State shared between the driver and the scripted connector.
@@ -259,6 +261,7 @@ pub fn connector(
             let mode = *st.mode.lock().unwrap();
             match mode {
                 ConnectMode::Fail => Err(io::Error::new(io::ErrorKind::ConnectionRefused, "scripted connect failure")),
+                ConnectMode::Hang => std::future::pending().await,
                 ConnectMode::Succeed => {
                     let (c, s) = pipe(1 << 16, &st.chop_client, &st.chop_server);
                     st.conns.lock().unwrap().push(c.sever.clone());
